@@ -141,6 +141,7 @@ type blockObs struct {
 	valid      [][]byte
 	invalid    [][]byte
 	invalidErr []string
+	tornErr    string
 }
 
 func (r *replica) step(p blockParam) (blockObs, error) {
@@ -151,21 +152,10 @@ func (r *replica) step(p blockParam) (blockObs, error) {
 	if err != nil {
 		return o, fmt.Errorf("OnExecute(%d): %v", p.height, err)
 	}
-	er, ok := res.(gtypes.ExecuteResult)
-	if !ok {
+	if _, ok := res.(gtypes.ExecuteResult); !ok {
 		return o, fmt.Errorf("OnExecute(%d) returned %T", p.height, res)
 	}
-	for _, v := range er.ValidTxs {
-		o.valid = append(o.valid, append([]byte{}, v...))
-	}
-	for _, iv := range er.InvalidTxs {
-		o.invalid = append(o.invalid, append([]byte{}, iv.Bytes...))
-		msg := "<nil>"
-		if iv.Error != nil {
-			msg = iv.Error.Error()
-		}
-		o.invalidErr = append(o.invalidErr, msg)
-	}
+	o = resToObs(res)
 	cres, err := r.app.OnCommit(p.height, 0, blk)
 	if err != nil {
 		return o, fmt.Errorf("OnCommit(%d): %v", p.height, err)
@@ -390,6 +380,8 @@ func (c hctx) String() string {
 }
 
 const sigKvsNotReset = "receiptshash-carries-kv-records-of-earlier-blocks-of-the-process-lifetime"
+const sigBadSigValid = "tx-with-invalid-signature-classified-valid"
+const sigNoBytes = "execute-result-entry-without-tx-bytes"
 const sigCallAfterRestart = "contract-call-query-panics-on-restarted-replica-before-its-next-block"
 
 func runCase(c Case, x reporter) {
@@ -431,9 +423,50 @@ func runCase(c Case, x reporter) {
 		}
 	}
 
+	// heights (index) at which some replica is compared with A's query answers
+	needQ := make([]bool, n)
+	for i := 0; i < n; i++ {
+		needQ[i] = c.QueryEvery || i == n-1 || restartAfter[i+1]
+	}
+
+	// anomalies judges one block observation on its own (no second replica needed): shapes
+	// that are wrong on any replica and whose root causes are schedule-dependent. It returns
+	// flagged=true when the classification lists of this observation are unusable for the
+	// list comparison, stop=true when a new violation was reported.
+	anomalies := func(R string, i int, o blockObs) (flagged, stop bool) {
+		for _, v := range o.valid {
+			if len(v) > 0 && sigInvalid(v) {
+				flagged = true
+				if x.Fail(sigBadSigValid, "height %d replica %s: a transaction whose signature is invalid (Sender fails on its bytes) was reported in ExecuteResult.ValidTxs: %s", i+1, R, describeClass(txs[i], o)) {
+					return flagged, true
+				}
+				break
+			}
+		}
+		if o.tornErr != "" {
+			flagged = true
+			if x.Fail(sigBadSigValid, "height %d replica %s: ExecuteResult.InvalidTxs carries an error value that was read while the verifier goroutine was still writing it (%s); Error() on it panics (the node calls it in execBlockOnApp)", i+1, R, o.tornErr) {
+				return flagged, true
+			}
+		}
+		for _, l := range [][][]byte{o.valid, o.invalid} {
+			for _, v := range l {
+				if len(v) == 0 {
+					flagged = true
+					if x.Fail(sigNoBytes, "height %d replica %s: ExecuteResult has an entry with no tx bytes although every tx of the block is non-empty: %s", i+1, R, describeClass(txs[i], o)) {
+						return flagged, true
+					}
+					return flagged, false
+				}
+			}
+		}
+		return flagged, false
+	}
+
 	// ---- replica A: one lifetime; its results define the headers of the chain --------------
 	params := make([]blockParam, n)
 	obsA := make([]blockObs, n)
+	flagA := make([]bool, n)
 	qsAt := make([][]namedQuery, n)
 	qA := make([][]qres, n)
 	rcptBytes := make([][][]byte, n) // stored receipts of the valid non-KV txs of block i, in order
@@ -462,6 +495,11 @@ func runCase(c Case, x reporter) {
 				return
 			}
 			obsA[i] = o
+			if f, stop := anomalies("A", i, o); stop {
+				return
+			} else if f {
+				flagA[i] = true
+			}
 			if len(o.valid)+len(o.invalid) != len(txs[i]) {
 				if x.Fail("tx-neither-valid-nor-invalid", "height %d: %d txs but %s", i+1, len(txs[i]), describeClass(txs[i], o)) {
 					return
@@ -472,8 +510,10 @@ func runCase(c Case, x reporter) {
 					sigFailures++
 				}
 			}
-			qsAt[i] = buildQueries(i+1, txs, m, contractsUpTo)
-			qA[i] = A.ask(qsAt[i])
+			if needQ[i] {
+				qsAt[i] = buildQueries(i+1, txs, m, contractsUpTo)
+				qA[i] = A.ask(qsAt[i])
+			}
 			// per-block receipt / kv material (for attributing the kvs-not-reset finding and labels)
 			pos := positions(txs[i], o)
 			for j, bt := range txs[i] {
@@ -543,7 +583,11 @@ func runCase(c Case, x reporter) {
 				return false
 			}
 		}
-		if !sameList(a.valid, o.valid) || !sameList(a.invalid, o.invalid) {
+		f, stop := anomalies(R, i, o)
+		if stop {
+			return false
+		}
+		if !f && !flagA[i] && (!sameList(a.valid, o.valid) || !sameList(a.invalid, o.invalid)) {
 			if x.Fail("tx-classification-differs:"+hc.String(), "height %d: A %s | %s %s", hgt, describeClass(txs[i], a), R, describeClass(txs[i], o)) {
 				return false
 			}
@@ -630,7 +674,7 @@ func runCase(c Case, x reporter) {
 	}
 
 	// ---- replica C: catches up later, from genesis, queried only at the end -------------------
-	{
+	if !c.SkipC {
 		evm.VerifSetValidateRoutineCount(c.WorkersC)
 		C := &replica{name: "C", dir: filepath.Join(base, "c"), core: &fakeCore{params: params}}
 		if err := C.open(); err != nil {
@@ -654,7 +698,7 @@ func runCase(c Case, x reporter) {
 	}
 
 	// ---- evidence ---------------------------------------------------------------------------
-	x.Label(fmt.Sprintf("blocks:%d", n))
+	x.Label("blocks:" + bucketBlocks(n))
 	x.Label(fmt.Sprintf("restarts-inside:%d", min(inside, 3)))
 	if restartAfter[n] {
 		x.Label("restart-after-last-block")
@@ -723,6 +767,18 @@ func runCase(c Case, x reporter) {
 	}
 }
 
+func bucketBlocks(n int) string {
+	switch {
+	case n <= 8:
+		return fmt.Sprint(n)
+	case n <= 40:
+		return "9-40"
+	case n <= 150:
+		return "41-150"
+	}
+	return "151+"
+}
+
 func bucket(n int) string {
 	switch {
 	case n == 0:
@@ -753,11 +809,36 @@ func resToObs(res interface{}) blockObs {
 	}
 	for _, iv := range er.InvalidTxs {
 		o.invalid = append(o.invalid, append([]byte{}, iv.Bytes...))
-		msg := "<nil>"
-		if iv.Error != nil {
-			msg = iv.Error.Error()
+		msg, torn := errText(iv.Error)
+		if torn {
+			o.tornErr = msg
 		}
 		o.invalidErr = append(o.invalidErr, msg)
 	}
 	return o
+}
+
+// errText renders an error; an error interface that was read while another goroutine was
+// writing it (type word set, data word not yet) panics in Error(): reported, not propagated.
+func errText(e error) (msg string, torn bool) {
+	if e == nil {
+		return "<nil>", false
+	}
+	defer func() {
+		if p := recover(); p != nil {
+			msg, torn = fmt.Sprintf("<error value unusable: %v>", p), true
+		}
+	}()
+	return e.Error(), false
+}
+
+// sigInvalid tells whether raw decodes as a transaction whose signature is invalid under the
+// application's signer (a pure function of the bytes).
+func sigInvalid(raw []byte) bool {
+	tx := new(etypes.Transaction)
+	if rlp.DecodeBytes(raw, tx) != nil {
+		return false
+	}
+	_, err := etypes.Sender(signer, tx)
+	return err != nil
 }
